@@ -32,6 +32,10 @@ PANIC_REVIEWED = {
         (1, 'unnamed_in_progress[key.idx] after get_mut(key.idx) succeeded on the same vector (same length as nodes)'),
     ('schema::safe::canonical_form::WriteCanonicalFormState::write_canonical_form::{closure#1}', 'index'):
         (1, 'named_type_written[key.idx] after nodes.get(key.idx) succeeded; vectors have the same length'),
+    ('schema::safe::canonical_form::WriteCanonicalFormState::enter_unnamed_node', 'assert:overflow(Add)'):
+        (1, 'n_named_types_written + 1: the counter is at most the number of nodes (one increment per first-written named node)'),
+    ('schema::safe::canonical_form::WriteCanonicalFormState::write_canonical_form::{closure#1}', 'assert:overflow(Add)'):
+        (1, 'n_named_types_written += 1 under the first-occurrence flag: at most nodes.len() increments'),
     ('schema::safe::check_for_cycles::check_for_cycles', 'index'):
         (1, 'checked_nodes[idx] with idx from enumerate() over a vector of the same length'),
     ('schema::safe::check_for_cycles::check_no_zero_sized_cycle_inner', 'index'):
@@ -493,37 +497,99 @@ def canon_guard_semantics(ctx, scope):
         return
     en, lv = enter[0], leave[0]
     ctx.touched(en); ctx.touched(lv)
-    # enter: a bool test of the table entry; the false edge marks it and returns Ok, the other edge errs
-    ok, det = False, 'no test of the table entry found'
+    # enter: the node may be entered again only if a named type was fully written since it was last entered (the next
+    # time round that type is a reference, so the recursion ends): the table entry (generation at the last entry, 0 when
+    # not in progress) is compared with the current generation (1 + number of named types written); entry < generation
+    # => stored and Ok, otherwise (equal included: nothing named in between, an unbreakable cycle) => Err.
+    # A guard that refuses EVERY re-entry rejects ordinary recursive types whose unnamed nodes are shared
+    # (`struct Tree { children: Vec<Tree> }` under `Vec<Tree>`): found as F16 in the first form of the F8 repair.
+    COUNTER = 'n_named_types_written'
+    ok, det = False, 'no comparison of the table entry with the generation of named types written found'
+    FLIP = {'Lt': 'Gt', 'Gt': 'Lt', 'Le': 'Ge', 'Ge': 'Le'}
     for bb in sorted(en.live_blocks()):
         if en.term(bb)['k'] != 'switch':
             continue
         si = en.switch_info(bb)
         if si.get('kind') == 'enum':
             continue
-        so = origin(en, si['op'])
-        if 'unnamed_in_progress' not in so.fields:
+        cond = switch_condition(en, si)
+        neg = False
+        while cond[0] == 'not':
+            cond, neg = cond[1], not neg
+        if cond[0] != 'cmp' or cond[1] not in FLIP:
+            so = origin(en, si['op'])
+            if 'unnamed_in_progress' in so.fields and COUNTER not in so.fields:
+                det = 'the guard tests the table entry alone (refuses every re-entry, also through a newly written named type)'
+            continue
+        lo, ro = origin(en, cond[2]), origin(en, cond[3])
+        op = cond[1]
+        if 'unnamed_in_progress' in ro.fields and COUNTER in lo.fields:
+            lo, ro, op = ro, lo, FLIP[op]
+        if not ('unnamed_in_progress' in lo.fields and COUNTER in ro.fields and COUNTER not in lo.fields):
             continue
         edges = _switch_edges(en, bb)
         if edges is None:
             continue
         t_edge, f_edge = edges
+        if neg:
+            t_edge, f_edge = f_edge, t_edge
+        # entry OP generation: which edge is "strictly older"?
+        if op == 'Lt':
+            older, other, strict = t_edge, f_edge, True
+        elif op == 'Ge':
+            older, other, strict = f_edge, t_edge, True
+        elif op == 'Le':
+            older, other, strict = t_edge, f_edge, False
+        else:
+            older, other, strict = f_edge, t_edge, False
         marks = False
-        for x in en.reachable_from(f_edge):
+        for x in en.reachable_from(older):
             for s_ in en.stmts(x):
-                if 'assign' in s_ and s_['assign'].get('p') and s_['rv']['k'] == 'use' and const_int(s_['rv']['op']) == 1 and \
-                        'unnamed_in_progress' in origin(en, s_['assign']).fields:
+                if 'assign' in s_ and s_['assign'].get('p') and s_['rv']['k'] == 'use' and 'unnamed_in_progress' in origin(en, s_['assign']).fields and \
+                        COUNTER in origin(en, s_['rv']['op']).fields:
                     marks = True
-        ok = marks and all_paths_err(en, t_edge) and bool(ok_return_blocks(en, en.reachable_from(f_edge)))
-        det = 'entry false => marked in progress and Ok: %s; entry true (already in progress) => Err: %s' % (marks, all_paths_err(en, t_edge))
+        plus = ro.has_arith() and 1 in ro.consts()
+        errs = all_paths_err(en, other)
+        ok = strict and marks and errs and plus and bool(ok_return_blocks(en, en.reachable_from(older)))
+        det = 'entry older than the current generation => generation stored and Ok: %s; otherwise Err: %s; equal generations refused: %s; generation is 1 + named types written (never the idle value 0): %s' % (marks, errs, strict, plus)
     ctx.ob('RECGUARD-T', 'canon/enter-refuses-in-progress', ok, short_loc(en.span), det)
-    # leave: writes false
+    # leave: writes the idle value 0
     okl = False
     for x in lv.live_blocks():
         for s_ in lv.stmts(x):
             if 'assign' in s_ and s_['assign'].get('p') and s_['rv']['k'] == 'use' and const_int(s_['rv']['op']) == 0 and 'unnamed_in_progress' in origin(lv, s_['assign']).fields:
                 okl = True
-    ctx.ob('RECGUARD-T', 'canon/leave-clears', okl, short_loc(lv.span), 'the leave helper resets the entry to false: %s' % okl)
+    ctx.ob('RECGUARD-T', 'canon/leave-clears', okl, short_loc(lv.span), 'the leave helper resets the entry to the idle value 0: %s' % okl)
+    # the generation moves exactly when a named type is written in full: the only writes of the counter are `+= 1` next to
+    # the first-occurrence mark (named_type_written[key] = true) - counting references or unnamed nodes would let an
+    # unbreakable cycle through
+    cw = []
+    for b in scope:
+        if not fn_label(b).startswith(CFM):
+            continue
+        for bb in sorted(b.live_blocks()):
+            if b.is_cleanup(bb):
+                continue
+            for s_ in b.stmts(bb):
+                if 'assign' in s_ and any(isinstance(e, dict) and e.get('f') == COUNTER for e in s_['assign'].get('p', [])):
+                    rv = s_['rv']
+                    inc = False
+                    if rv['k'] == 'use':
+                        o2 = origin(b, rv['op'])
+                        inc = COUNTER in o2.fields and 1 in o2.consts() and {x for x in o2.flags if x.startswith('arith:')} <= {'arith:Add', 'arith:AddWithOverflow'} and o2.has_arith()
+                    elif rv['k'] == 'bin' and rv['op'] in ('Add', 'AddWithOverflow'):
+                        inc = True
+                    # next to the first-occurrence mark: a write of `true` into named_type_written on the same straight path
+                    marked = False
+                    for x in b.live_blocks():
+                        if b.dominates(x, bb) or b.dominates(bb, x) or x == bb:
+                            for s2 in b.stmts(x):
+                                if 'assign' in s2 and s2['assign'].get('p') and s2['rv']['k'] == 'use' and const_int(s2['rv']['op']) == 1 and \
+                                        ('named_type_written' in origin(b, s2['assign']).fields or is_bool_table(b.local_ty(s2['assign']['l']) or '') or 'bool' in (b.local_ty(s2['assign']['l']) or '')):
+                                    marked = True
+                    cw.append((fn_label(b), inc and marked))
+    ctx.ob('RECGUARD-T', 'canon/generation-counts-first-writes', len(cw) == 1 and all(x[1] for x in cw), short_loc(w.span),
+           'writes of the named-types counter: %s (expected: one `+= 1` where the first-occurrence flag is set)' % ([('%s: %s' % x) for x in cw] or 'none'))
     # bracket: between enter and leave of the same arm lie all recursive calls of that arm; no recursion after a leave
     ecalls = [(bb, t) for bb, t in w.calls() if (t.get('resolved') or t.get('callee')) == en.id]
     lcalls = [(bb, t) for bb, t in w.calls() if (t.get('resolved') or t.get('callee')) == lv.id]
